@@ -6,9 +6,12 @@ Model: lean/LenaModel/Model/C09.lean, theorems lean/LenaModel/Props/C09.lean, dr
 
 A case is one element configuration and one history of method calls
     {"el": SPEC, "ops": [["f", VALUE] | ["c"] | ["r"], ...], "sh": k}
-VALUE = {"d": DATA, "c": context | None}; numbers are ints or {"fl": float.hex()}; every number of a case that takes
-part in arithmetic is a multiple of 2**-k ("sh"), small enough for every partial sum to be exact in binary64, so the
-model (exact integers after scaling by 2**k) and the implementation can be compared with ==.
+VALUE = {"d": DATA, "c": context | None, "co": n (optional: the insertion order of the context's keys, see _ordered)};
+numbers are ints or {"fl": float.hex()}; every number of a case that takes part in arithmetic is a multiple of 2**-k
+("sh"), small enough for every partial sum to be exact in binary64 (or an int of any size while the running total is an
+int), so the model (exact integers after scaling by 2**k) and the implementation can be compared with ==; a Sum history
+in which a float addition rounds is judged by the oracle alone.  After every compute() the harness changes the yielded
+contexts / groups in place, as the elements after an accumulator do (_scribble).
 """
 import bisect
 import copy
@@ -61,6 +64,12 @@ THEOREMS = [
     # Graph
     "Lena.C09.graph_points", "Lena.C09.graph_own_keys_only", "Lena.C09.graph_scale_adopted",
     "Lena.C09.graph_from_reset_fresh", "Lena.C09.graph_from_reset_not_same_args",
+    # adversary round: Sum with Python's number types (reset assigns the int 0), values next to a bin edge,
+    # VarianceMeanCount around explicit sum elements (both must be reset)
+    "Lena.C09.tsum_compute_spec", "Lena.C09.tsum_type_after_reset",
+    "Lena.C09.binIndex_on_edge", "Lena.C09.binIndex_just_below_edge", "Lena.C09.hist_fill_just_below_edge",
+    "Lena.C09.vmc_sums_compute_spec", "Lena.C09.vmcOver_reset_fresh", "Lena.C09.vmc_sums_reset_fresh",
+    "Lena.C09.vmc_is_vmcOver",
 ]
 # audited, but not counted as proof obligations of the property: restatements of the model (transcription checks:
 # the model's reset of these elements is a constant, so reset-equals-fresh is one `rfl` - the assurance for them is the
@@ -77,11 +86,14 @@ AUX_THEOREMS = [
     "Lena.C09.groupByOpt_fillAll", "Lena.C09.groupByOpt_fillAll_mixed", "Lena.C09.groupByOpt_fill_none",
     "Lena.C09.c15_groupsAdd_eq", "Lena.C09.count_run_spec", "Lena.C09.count_run_empty",
     "Lena.C09.bisect_ok", "Lena.C09.histnd_fillAll_C06", "Lena.C09.histnd_fill_cell",
+    "Lena.C09.tsum_fillAll", "Lena.C09.tsum_erase", "Lena.C09.tsum_reset_fresh", "Lena.C09.tsum_keep_type_reset_not_fresh",
+    "Lena.C09.vmcOver_fillAll", "Lena.C09.dataSum_bareSq", "Lena.C09.ctxAfter_bareSq", "Lena.C09.vmc_half_reset_not_fresh",
 ]
 TRUSTED = [
     "Lean 4.33.0 kernel; axioms limited to propext, Classical.choice, Quot.sound (audited by #print axioms on every run)",
     "hand transcription of Count (fill, compute, reset, run, fill_into), Sum, DSum, Mean (sum_seq None / Sum() / DSum() / any "
-    "FillCompute sum sequence with numeric results), VarianceMeanCount (Sum() sums), Vectorize (copies of one component or a "
+    "FillCompute sum sequence with numeric results), VarianceMeanCount (Sum() sums; any two sum elements - vmcOverM), Sum over "
+    "numbers that carry their Python type (tsumM), Vectorize (copies of one component or a "
     "list of Sum/Count components, bare or FillComputeSeq components, construct), StoreFilled, GroupBy, Histogram (own "
     "one-dimensional model, and any dimension on the shared model LenaModel/Model/C06.lean) and Graph (__init__, fill, "
     "compute, reset, _update) into LenaModel/Model/C09.lean, validated by this correspondence check on the yielded "
@@ -96,15 +108,24 @@ TRUSTED = [
     "JSON line protocol encoders (harness/props/c09.py, drivers/C09.lean), including the exact scaling of floats to integers",
 ]
 ASSUMPTIONS = [
-    "exact arithmetic: ints, and finite floats chosen so that every partial sum and square is exactly representable; the "
+    "exact arithmetic: ints (of any size - also beyond 2**53, where only int arithmetic is exact: the typed model tsumM says "
+    "when the total is an int), and finite floats chosen so that every partial sum and square is exactly representable; a "
+    "Sum history in which a float addition rounds is judged by the oracle alone, within the forward error bound "
+    "n * 2**-52 * sum|v| of a float summation (Python 3.12's own sum() is compensated: neither summation order nor "
+    "compensation is promised by 'Python's sum' - adversary candidate C09/5, a Neumaier Sum, is judged outside the statement); the "
     "quotients of Mean and VarianceMeanCount are exact rationals in the model and the implementation's floats are compared "
     "with them within the forward error bound of a float evaluation (4 ulp for a mean, 16 u n/(n-1) (E[x^2]+mean^2) for the "
     "two-sums variance) - any re-association or a more accurate algorithm passes; rounding itself is not modelled",
     "finite floats only: inf / nan (DSum.fill(inf); fill(-inf) gives NaN silently: InvalidOperation is not trapped) have no "
     "exact sum and are outside the statement; Emax/Emin of the decimal context are not reached",
     "value semantics: the model has no object identity; that yielded contexts and StoreFilled groups are copies is checked by "
-    "the harness (every yielded context / group is re-encoded at the end of the history); liveness of yielded histograms, "
-    "graphs and GroupBy groups, and writes into the filled value's own context (Count.compute) are property C04's subject",
+    "the harness: after every compute() it changes the yielded contexts (every leaf, a new key in every nested dictionary) "
+    "and the yielded group in place, as the elements after an accumulator do, and a later compute() must still yield the "
+    "context of the last filled value; every yielded context / group is also re-encoded at the end of the history; liveness "
+    "of yielded histograms, graphs and GroupBy groups, writes into the filled value's own context (Count.compute) and a "
+    "filled value that its producer changes after fill() are property C04's subject",
+    "contexts are equal as dictionaries: the insertion order of the keys (varied by the generator at every nesting level) "
+    "is not part of a context - two values whose contexts differ only in it belong to one GroupBy group",
     "contexts are flat dictionaries whose leaves are opaque to the accumulators (nested dictionaries are opaque leaves; "
     "update_recursively on nested contexts of a sum sequence is checked by the oracle only)",
     "reset() equals a NEW element means: constructed with the same configuration and the documented start that the reset "
@@ -121,30 +142,42 @@ ASSUMPTIONS = [
     "equivalent because no modelled component raises after its first value or observes another component",
     "adapters (FillRequest, FillRequestSeq, FillCompute) around an accumulator are transparent while the block size is not "
     "reached: fill/reset through them are the element's own (validated on the cases with 'via')",
-    "outside the modelled and generated configurations (recorded exclusions): VarianceMeanCount with sums other than Sum() "
-    "(one sum without reset is generated: the element then has no reset); Vectorize around an element without reset "
+    "VarianceMeanCount(sum_sq, sum_): the sums are Sum(), Sum(start) or a FillCompute adapter around Sum() (no reset) in "
+    "either position; the element is inside the quantifier iff it HAS a reset method (documented: iff both sums have "
+    "one); then reset() must not raise and must equal VarianceMeanCount(Sum(), Sum()).  With a start the yielded triple is "
+    "the element's formula on start + sum (vmc_sums_compute_spec), the variance of the filled values for the zero start",
+    "outside the modelled and generated configurations (recorded exclusions): VarianceMeanCount with DSum sums (corrected: "
+    "Decimal * float is a TypeError) or sums yielding several values / pairs (modelled: VmcOver.one, not exercised); "
+    "Vectorize around an element without reset "
     "(del self.reset raises AttributeError at construction - DESIGN 6), around Histogram/Graph/GroupBy, FillComputeSeq "
     "components with elements after the accumulator, TypeError raised inside construct; Histogram bins with ragged inner "
     "dimensions; the error branch of Mean.fill around a sum sequence whose fill raises (modelled, not exercised); elements "
     "whose reset belongs to a fill/request protocol: FillRequest, FillRequestSeq, Zip (fill/request form), NumpyHistogram "
     "(numpy absent), the private _GroupBy - the property's histories are fill/compute/reset",
 ]
-RULE = ("per element configuration (77 of them: Count, Sum, DSum, Mean[None|Sum()|DSum()|Sum(start)|Count()|StoreFilled(False)|"
-        "FillCompute(Sum()) without reset], VarianceMeanCount[default or explicit sums], Vectorize[Sum|Count|Mean|Mean(DSum())|DSum|"
+RULE = ("per element configuration (94 of them: Count, Sum[int and float starts, numbers of both Python types and integers "
+        "beyond 2**53 around a reset], DSum, Mean[None|Sum()|DSum()|Sum(start)|Count()|StoreFilled(False)|"
+        "FillCompute(Sum()) without reset], VarianceMeanCount[default or explicit sums: Sum(), Sum(start), a sum without reset, "
+        "in either position], Vectorize[Sum|Count|Mean|Mean(DSum())|DSum|"
         "VarianceMeanCount|StoreFilled, bare or wrapped in FillComputeSeq(lambda x: k*x, .), dim 1..3, list form, short and long "
         "data vectors, construct None|variadic|namedtuple of right and wrong size], StoreFilled, GroupBy[default|group_by|merge, "
-        "keys that cannot be rendered], Histogram[1-d, 2-d, 3-d, nested single axis, initial bins, make_bins, initial_value, "
+        "several keys, nested keys, one context written in different insertion orders, keys that cannot be rendered], "
+        "Histogram[1-d, 2-d, 3-d, nested single axis, initial bins, make_bins, initial_value, floats one ulp beside an edge, "
         "coordinates of the wrong dimension], Graph[scale, sort, tuple coordinates of equal and different dimensions], elements "
         "filled and reset through FillRequest / FillRequestSeq / FillCompute adapters): EVERY history of up to 4 calls (quick: 3 for the "
         "Vectorize/Mean/VarianceMeanCount families; thorough: up to 5 for the single-accumulator families) over {fill(v1), "
         "fill(v2), compute, reset}; Count with every history of up to 3 (thorough 4) calls over {run(2 values), run(()), "
         "run(1 value), fill, fill_into(2 values), compute, reset}; construction argument checks of "
         "Histogram, Vectorize, GroupBy; a regression corpus; plus seeded random histories fill* (compute|reset|fill)* of up to 12 "
-        "calls (quick 4 000, thorough 170 000) with ints (up to 1e30 for Sum), exactly summable floats of mixed magnitude "
-        "(multiples of 2**-k, k up to 20), (data, context) pairs with flat and nested contexts; DSum, Mean(DSum()) and their "
-        "Vectorize with arbitrary floats (denormals to 1e308, cancelling pairs, huge ints).  Every case also sends the "
+        "calls (quick 12 000, thorough 170 000) with ints, exactly summable floats of mixed magnitude "
+        "(multiples of 2**-k, k up to 20), stretches of integers up to 1e30 while the running total is an int (Sum, Mean, "
+        "VarianceMeanCount: after construction and after every reset), Sum also with floats whose additions round (oracle only, "
+        "forward error bound), Histogram coordinates on an edge, one unit, a few ulps and a relative 1e-9..1e-13 beside it (all "
+        "dimensions), (data, context) pairs with flat and nested contexts in varying key orders; DSum, Mean(DSum()) and their "
+        "Vectorize with arbitrary floats (denormals to 1e308, cancelling pairs, huge ints).  After every compute() the yielded "
+        "contexts and groups are changed in place (what downstream elements do).  Every case also sends the "
         "specification vocabulary of the theorems (Model/C09Spec.lean) to the driver and compares it with Python references.  "
-        "After every reset the rest of the history is replayed on a new element and `element == new element` is evaluated.  "
+        "After every reset the rest of the history is replayed on a new element.  "
         "Non-trivial: a construction error, or at least two fills and a compute that yields something.")
 CASE_TIMEOUT = 10
 
@@ -167,6 +200,11 @@ def _frac(x):
     return Fraction(_num(x))
 
 
+def _mknum_frac(f):
+    """a Fraction with a power-of-two denominator as a case number"""
+    return f.numerator if f.denominator == 1 else _mknum(f.numerator / f.denominator)
+
+
 def _data(spec, d):
     k = spec["k"]
     if k == "vec":
@@ -187,11 +225,26 @@ def _dec_leaf(x):
     return copy.deepcopy(x)
 
 
+def _ordered(c, co):
+    """a context of a case as a Python dict with a definite insertion order (a replay file is written with sorted
+    keys, so the order is part of the VALUE: "co"): the sorted keys, rotated by co and reversed when co // n is odd,
+    in every nested dictionary as well.  Equal contexts written in different orders are one context."""
+    if not isinstance(c, dict) or "__set__" in c:
+        return _dec_leaf(c)
+    keys = sorted(c)
+    n = len(keys)
+    if co and n > 1:
+        keys = keys[co % n:] + keys[:co % n]
+        if (co // n) % 2:
+            keys.reverse()
+    return {k: _ordered(c[k], co) for k in keys}
+
+
 def _value(spec, v):
     d = _data(spec, v["d"])
     if v.get("c") is None:
         return d
-    return (d, {k: _dec_leaf(x) for k, x in v["c"].items()})
+    return (d, _ordered(v["c"], v.get("co", 0)))
 
 
 def _ctx_of(v):
@@ -237,10 +290,17 @@ def _build(spec, zero=False):
             seq = cls() if cls else None
         return lena.math.Mean(seq, pass_on_empty=spec["poe"])
     if k == "vmc":
-        if spec.get("sums") == "fc":      # one sum without reset: the element has no reset method either
+        if spec.get("sums") is not None:
+            # [sum_sq, sum_], each "sum" = Sum(), {"t0": t} = Sum(t), "fc" = FillCompute(Sum()) (a sum without reset),
+            # "none" = the default;
+            # the old spelling "fc" is ["fc", "sum"].  The element has a reset method iff both sums have one.
             import lena.core
-            return lena.math.VarianceMeanCount(lena.core.FillCompute(lena.math.Sum()), lena.math.Sum(),
-                                               corrected=spec["corrected"], pass_on_empty=spec["poe"])
+            def mk(x):
+                if isinstance(x, dict):      # {"t0": start}: Sum(start); reset() goes to the documented zero
+                    return lena.math.Sum(0 if zero else _num(x["t0"]))
+                return {"sum": lena.math.Sum, "none": lambda: None, "fc": lambda: lena.core.FillCompute(lena.math.Sum())}[x]()
+            a, b = _vmc_sums(spec)
+            return lena.math.VarianceMeanCount(mk(a), mk(b), corrected=spec["corrected"], pass_on_empty=spec["poe"])
         if spec.get("explicit"):
             return lena.math.VarianceMeanCount(lena.math.Sum(), lena.math.Sum(), corrected=spec["corrected"],
                                                pass_on_empty=spec["poe"])
@@ -292,6 +352,24 @@ def _build(spec, zero=False):
     if k == "vec2":
         return lena.math.Vectorize(lena.math.Sum(), spec["dim"])
     raise ValueError(k)
+
+
+def _vmc_sums(spec):
+    """(sum_sq, sum_) of a VarianceMeanCount configuration with explicit sums"""
+    sm = spec["sums"]
+    return ("fc", "sum") if sm == "fc" else (sm[0], sm[1])
+
+
+def _vmc_resettable(spec):
+    """"If they both can be reset, this object has also a reset() method" """
+    return spec.get("sums") is None or "fc" not in _vmc_sums(spec)
+
+
+def _vmc_starts(spec, zero):
+    """the starts (Fractions) of sum_sq and sum_: what Sum(t) was given, 0 after a reset"""
+    if zero or spec.get("sums") is None:
+        return Fraction(0), Fraction(0)
+    return tuple(_frac(x["t0"]) if isinstance(x, dict) else Fraction(0) for x in _vmc_sums(spec))
 
 
 def _inner_of(spec, i):
@@ -350,6 +428,17 @@ def _adapter(el, via):
     return el
 
 
+def _scribble(c):
+    """What the elements after an accumulator do with the context they receive (lena elements update contexts in
+    place): every leaf is overwritten, every dictionary - nested ones too - gets a new key."""
+    for k in list(c):
+        if isinstance(c[k], dict):
+            _scribble(c[k])
+        else:
+            c[k] = "changed downstream"
+    c["zz_downstream"] = {"filename": "x"}
+
+
 class _Receiver:
     """what Count.fill_into hands its value to"""
     def __init__(self):
@@ -366,6 +455,7 @@ def _run_ops(el, spec, ops, live=None):
     rst_el = el if spec.get("via") == "fc" else drv
     alias = spec.get("alias")            # GroupBy: the deprecated names update (= fill) and clear (= reset)
     kept = []                            # (op index, yield index, what, object, its encoding when it was yielded)
+    scribble = []                        # yielded objects that are documented to be copies: changed in place after the op
     for i, op in enumerate(ops):
         if op[0] == "run":
             try:
@@ -386,18 +476,31 @@ def _run_ops(el, spec, ops, live=None):
             except Exception as e:
                 obs.append({"f": exc_name(e)})
         elif op[0] == "c":
+            scribble = []
             try:
                 out = []
                 for j, y in enumerate(cmp_el.compute()):
                     out.append(_enc(y))       # encoded at yield time: histograms, graphs and groups are live objects
-                    if live is not None:
-                        if isinstance(y, tuple) and len(y) == 2 and isinstance(y[1], dict):
-                            kept.append((i, j, "context", y[1], _enc(y[1])))      # documented: a (deep) copy
-                        if spec["k"] == "store" and spec.get("group") and isinstance(y, list):
-                            kept.append((i, j, "group", y, _enc(y)))              # documented: a copy of the group
+                    # the yielded context is the element's own product (a deep copy of the last filled context,
+                    # extended): whatever happens to it downstream must not show in a later compute()
+                    if spec["k"] not in ("store", "groupby") and isinstance(y, tuple) and len(y) == 2 and isinstance(y[1], dict):
+                        scribble.append((j, "context", y[1]))
+                    if spec["k"] == "store" and spec.get("group") and isinstance(y, list):
+                        scribble.append((j, "group", y))                          # documented: a copy of the group
                 obs.append({"c": out})
             except Exception as e:
                 obs.append({"ce": exc_name(e)})
+            # downstream: the values yielded by this compute() are changed in place once the generator is exhausted
+            # (StoreFilled(False) and GroupBy yield the filled values themselves: those are left alone)
+            if not spec.get("no_downstream"):
+                for (j, what, obj) in scribble:
+                    if what == "context":
+                        _scribble(obj)
+                    else:
+                        obj.append("appended downstream")
+            if live is not None:
+                for (j, what, obj) in scribble:
+                    kept.append((i, j, what, obj, _enc(obj)))
         else:
             try:
                 (rst_el.clear if alias else rst_el.reset)()
@@ -408,8 +511,8 @@ def _run_ops(el, spec, ops, live=None):
         for (i, j, what, obj, enc0) in kept:
             enc1 = _enc(obj)
             if enc1 != enc0:
-                live.append(f"the {what} yielded by op {i} (value {j}) was {enc0} when yielded and is {enc1} after the rest "
-                            f"of the history: it is not a copy")
+                live.append(f"the {what} yielded by op {i} (value {j}) was {enc0} after op {i} (downstream change included) "
+                            f"and is {enc1} after the rest of the history: it is not a copy")
                 break
     return obs
 
@@ -548,15 +651,23 @@ def _main_requests(case):
                  "store": {"k": "storeitems"}, "storetag": {"k": "storetag"}}[spec["seq"]]
         el = {"k": "meanover", "inner": inner, "poe": spec["poe"]}
     elif k == "sum":
+        nums = [spec["total0"]] + [op[1]["d"] for op in case["ops"] if op[0] == "f"]
+        if not _sum_case_exact(spec, case["ops"]) or _need_sh(nums) > sh:
+            return []                  # a float addition rounds: outside the exact model, judged by the oracle
         el = {"k": "sum", "total0": _scaled(spec["total0"], sh)}
     elif k == "dsum":
         el = {"k": "dsum", "total0": _dyadic(spec["total0"])}      # Decimal(total) is modelled (Dec.ofDy)
     elif k == "mean" and spec["seq"] == "dsum":
         el = {"k": "meand", "poe": spec["poe"]}
     elif k in ("mean", "vmc", "store"):
-        if k == "vmc" and spec.get("sums") == "fc" and any(op[0] == "r" for op in case["ops"]):
+        if k == "vmc" and not _vmc_resettable(spec) and any(op[0] == "r" for op in case["ops"]):
             return []                  # the element has no reset method: judged by the oracle
         el = _m_spec(spec)
+        if k == "vmc" and spec.get("sums") is not None:
+            # explicit sums: the model of VarianceMeanCount around two sum elements (`vmcOverM`)
+            a, b = _vmc_starts(spec, False)
+            el = {"k": "vmcover", "corrected": spec["corrected"], "poe": spec["poe"],
+                  "sq0": _scaled(_mknum_frac(a), 2 * sh), "sm0": _scaled(_mknum_frac(b), sh)}
     elif k == "groupby":
         el = {"k": "groupby"}
     elif k == "vec" and spec.get("het"):
@@ -628,6 +739,13 @@ def _main_requests(case):
             ops.append({"o": op[0]})
     if k == "hist":
         return ([{"el": el, "ops": ops}] if el is not None else []) + [{"el": el_nd, "ops": ops}]
+    if k == "sum":
+        # the same history on the typed model (Model/C09.lean `tsumM`): every number with its Python type, int or float
+        isf = lambda x: isinstance(_num(x), float)
+        tops = [dict(o, v=dict(o["v"], d=[o["v"]["d"], isf(op[1]["d"])])) if op[0] == "f" else o
+                for o, op in zip(ops, case["ops"])]
+        return [{"el": el, "ops": ops},
+                {"el": {"k": "tsum", "total0": [el["total0"], isf(spec["total0"])]}, "ops": tops}]
     return [{"el": el, "ops": ops}]
 
 
@@ -642,7 +760,11 @@ def _spec_requests(case):
     tab = _leaf_table(case)
     try:
         if k in ("sum", "vmc", "store", "count") or (k == "mean" and spec["seq"] != "dsum"):
-            return [{"spec": "stats", "vs": [{"d": _scaled(v["d"], sh), "c": _m_ctx(v.get("c"), tab)} for v in fills]}]
+            reqs = [{"spec": "stats", "vs": [{"d": _scaled(v["d"], sh), "c": _m_ctx(v.get("c"), tab)} for v in fills]}]
+            if k == "sum":       # the vocabulary of the typed Sum theorems
+                reqs.append({"spec": "tstats", "vs": [{"d": [_scaled(v["d"], sh), isinstance(_num(v["d"]), float)],
+                                                       "c": _m_ctx(v.get("c"), tab)} for v in fills]})
+            return reqs
         if k == "groupby" and all(isinstance(a, (str, list)) for a in spec["args"]):
             keys = {}
             ks = []
@@ -699,7 +821,11 @@ def _spec_check(case, req, rep):
         dev = sum(((x - mu) ** 2 for x in xs), Fraction(0))
         want = {"ctxAfter": vs[-1]["c"] or {}, "dataSum": sum(xs), "dataSumSq": sum(x * x for x in xs), "isum": sum(xs),
                 "isumSq": sum(x * x for x in xs), "sqDev": [dev.numerator, dev.denominator], "bareCtx": {},
-                "bareSum": sum(xs)}
+                "bareSum": sum(xs), "bareSqSum": sum(x * x for x in xs), "bareSqCtx": {}}
+    elif kind == "tstats":
+        vs = req["vs"]
+        want = {"numSum": sum(v["d"][0] for v in vs), "anyFloat": any(v["d"][1] for v in vs),
+                "erased": [dict({"d": v["d"][0]}, **({"c": v["c"]} if v["c"] is not None else {})) for v in vs]}
     elif kind == "keys":
         ks = req["ks"]
         want = {"firstKeys": list(dict.fromkeys(ks)), "lookup": [i for i, k in enumerate(ks) if k == req["probe"]]}
@@ -848,6 +974,14 @@ def _conv_out(kind, spec, e, sh, tab, m):
         if c is not None:
             r["c"] = _impl_ctx(c, tab)
         return r
+    if kind == "tsum":         # the total with its Python type: [value, is it a float?]
+        d, c = _split_pair(e)
+        if not (isinstance(d, int) and not isinstance(d, bool)) and not (isinstance(d, dict) and "fl" in d):
+            raise _Mismatch(f"Sum yielded {d}, neither an int nor a float")
+        r = {"d": [_int_scaled(d, sh), isinstance(d, dict)]}
+        if c is not None:
+            r["c"] = _impl_ctx(c, tab)
+        return r
     if kind == "dsum":
         d, c = _split_pair(e)
         r = {"d": _unnum(d)}
@@ -985,6 +1119,8 @@ def _compare_one(case, res, m):
         return f"model driver error: {m['err']}"
     spec, sh = case["el"], case.get("sh", 0)
     kind = "count" if spec["k"] == "countrun" else spec["k"]
+    if m.get("typed"):
+        kind = "tsum"
     if "init_err" in res or "init_err" in m:
         if res.get("init_err") != m.get("init_err"):
             return f"construction: impl {res.get('init_err', 'ok')} vs model {m.get('init_err', 'ok')}"
@@ -1143,10 +1279,19 @@ def _agg_fail(spec, e, fills, start, zero):
         exact = start + sum((_frac(v["d"]) for v in fills), Fraction(0))
         try:
             got = _unnum(d)
-        except _Mismatch as ex:
-            return str(ex)
-        if got != exact:
-            return f"{'DSum' if k == 'dsum' else 'Sum'} yields {d} = {got}, the exact sum of the filled values is {exact}"
+        except (_Mismatch, OverflowError, ValueError) as ex:
+            return f"{k} yields {d}: {ex}"
+        slack = Fraction(0)
+        if k == "sum":
+            # "Python's sum": start + v1 + v2 + ...  It is the exact sum whenever no addition rounds (always for
+            # ints, whatever their size); where a float addition rounds, rounding is outside the statement and any
+            # summation within the forward error bound n * 2u * sum|v| of a float summation passes
+            exact_l2r, mag = _sum_l2r(0 if zero else _num(spec["total0"]), [_num(v["d"]) for v in fills])
+            if not exact_l2r:
+                slack = len(fills) * Fraction(1, 2 ** 52) * mag
+        if abs(got - exact) > slack:
+            return (f"{'DSum' if k == 'dsum' else 'Sum'} yields {d} = {got}, the exact sum of the filled values is {exact}"
+                    + (f" (allowed rounding error {float(slack)!r})" if slack else ""))
         if not ctx_ok(c):
             return f"{k} yields context {c}; the last filled context is {want_ctx}"
         return None
@@ -1210,7 +1355,14 @@ def _agg_fail(spec, e, fills, start, zero):
         var = ssq / (n - 1) if spec["corrected"] else ssq / n
         m2 = sum((x * x for x in xs), Fraction(0)) / n
         r = Fraction(n, n - 1) if spec["corrected"] else Fraction(1)
-        bound = 16 * Fraction(1, 2 ** 53) * r * (m2 + mu * mu)     # forward error bound of the two-sums formula
+        a0, b0 = _vmc_starts(spec, zero)
+        if a0 or b0:
+            # "sum_sq and sum_ are FillCompute elements calculating the sums of squares and of values": sums that
+            # were given a start yield start + sum, and the element computes its formula from what they yield
+            mu = (b0 + sum(xs, Fraction(0))) / n
+            m2 = (a0 + sum((x * x for x in xs), Fraction(0))) / n
+            var = (m2 - mu * mu) * r
+        bound = 16 * Fraction(1, 2 ** 53) * r * (abs(m2) + mu * mu)     # forward error bound of the two-sums formula
         f = d["f"]
         try:
             gv, gm = _unnum(f["variance"]), _unnum(f["mean"])
@@ -1317,6 +1469,34 @@ def _agg_fail(spec, e, fills, start, zero):
     raise ValueError(k)
 
 
+def _sum_l2r(start, xs):
+    """(does start + x1 + x2 + ... evaluate without any rounding in Python arithmetic?, |start| + sum|x|)"""
+    t, ok, mag = start, True, abs(Fraction(start))
+    for x in xs:
+        try:
+            t2 = t + x
+            if Fraction(t2) != Fraction(t) + Fraction(x):
+                ok = False
+        except (OverflowError, ValueError):
+            ok, t2 = False, float(t) + float(x)
+        t = t2
+        mag += abs(Fraction(x))
+    return ok, mag
+
+
+def _sum_case_exact(spec, ops):
+    """no addition of the history rounds (the model is exact: it predicts the implementation only then)"""
+    t0, seg = _num(spec["total0"]), []
+    for op in ops:
+        if op[0] == "r":
+            if not _sum_l2r(t0, seg)[0]:
+                return False
+            t0, seg = 0, []
+        elif op[0] == "f":
+            seg.append(_num(op[1]["d"]))
+    return _sum_l2r(t0, seg)[0]
+
+
 def _vec_dim(spec):
     if spec.get("het"):
         return len(spec["het"])
@@ -1415,8 +1595,14 @@ def oracle(case, res):
         elif op[0] in ("run", "fi"):
             continue
         elif op[0] == "r":
-            if spec["k"] == "vmc" and spec.get("sums") == "fc" and not res.get("has_reset"):
-                continue        # "If they both can be reset, this object has also a reset() method": it has none here
+            if spec["k"] == "vmc" and not res.get("has_reset"):
+                # "If they both can be reset, this object has also a reset() method".  An element without a reset
+                # method is outside the quantifier (the call raised AttributeError, nothing happened); an element
+                # that HAS one is inside it, whatever its sums are: reset() must then work and equal a new element
+                if _vmc_resettable(spec):
+                    return (f"op {i}: VarianceMeanCount has no reset method although both of its sums can be reset "
+                            f"(history {_show(ops[:i + 1])})")
+                continue
             if spec["k"] == "mean" and spec["seq"] in ("fcsum", "storetag", "storenest"):
                 if o != {"re": "LenaAttributeError"}:      # "the sum element has no reset method"
                     return f"op {i}: reset() of Mean around a sum element without reset gives {o}, LenaAttributeError is documented"
@@ -1526,8 +1712,8 @@ def _show(ops):
         elif op[0] == "fi":
             out.append(f"fill_into(receiver, {op[1]['d']!r}{'' if op[1].get('c') is None else ', ' + repr(op[1]['c'])})")
         elif op[0] == "f":
-            v = op[1]
-            out.append(f"fill({v['d']!r}{'' if v.get('c') is None else ', ' + repr(v['c'])})")
+            v = op[1]          # the context as it is written (insertion order included)
+            out.append(f"fill({v['d']!r}{'' if v.get('c') is None else ', ' + repr(_ordered(v['c'], v.get('co', 0)))})")
         else:
             out.append({"c": "compute()", "r": "reset()"}[op[0]])
     return "; ".join(out)
@@ -1621,6 +1807,17 @@ def classify(case, res):
                 labels.append("compute-error:" + o["ce"])
     if any(op[0] == "r" for op in case["ops"]):
         labels.append("with-reset")
+    fl = [op[1] for op in case["ops"] if op[0] == "f"]
+    if any(v.get("co") for v in fl):
+        labels.append("context-key-order-varied")
+    if spec["k"] == "hist" and case.get("sh", 0) > 30:
+        labels.append("hist:coordinate-beside-an-edge")
+    if spec["k"] in ("sum", "mean", "vmc") and any(isinstance(v["d"], int) and abs(v["d"]) > 2 ** 53 for v in fl):
+        labels.append("integers-beyond-2**53")
+    if spec["k"] == "sum" and not _sum_case_exact(spec, case["ops"]):
+        labels.append("sum:float-additions-round")
+    if spec["k"] == "vmc" and spec.get("sums") is not None:
+        labels.append("vmc:explicit-sums" + ("" if _vmc_resettable(spec) else ":no-reset"))
     labels.append("len:%d" % min(len(case["ops"]), 12))
     return labels
 
@@ -1661,7 +1858,8 @@ def shrink(case):
 # case generation
 
 _CTXS = [None, {}, {"a": 1}, {"a": 2, "b": 3}, {"count": 7}, {"variable": {"name": "x"}, "a": 1}, {"scale": 5}, {"scale": 0},
-         {"scale": 6, "g": 1}, {"g": 1, "m": 1}, {"g": 2, "m": 1}, {"g": 1, "m": 2}, {"b": None}]
+         {"scale": 6, "g": 1}, {"g": 1, "m": 1}, {"g": 2, "m": 1}, {"g": 1, "m": 2}, {"b": None},
+         {"variable": {"name": "x", "unit": "m"}, "g": 1, "m": 2}, {"variable": {"unit": "m", "name": "x"}, "a": 1}]
 
 
 def _rand_ctx(rng):
@@ -1700,7 +1898,8 @@ def _rand_float_any(rng):
     return -v if rng.random() < 0.5 else v
 
 
-def _rand_history(rng, mkval, maxlen):
+def _rand_history(rng, mkval, maxlen, on_reset=None):
+    """fill* (compute | reset | fill)*; `on_reset` tells a stateful value generator that a reset was appended"""
     n = rng.randint(0, maxlen)
     ops = []
     nf = rng.randint(0, min(4, n))
@@ -1714,7 +1913,47 @@ def _rand_history(rng, mkval, maxlen):
             ops.append(["c"])
         else:
             ops.append(["r"])
+            if on_reset:
+                on_reset()
     return ops
+
+
+_BIG_INTS = [2 ** 53 + 1, 2 ** 53 + 3, -(2 ** 53) - 1, 2 ** 60 + 1, 2 ** 62 + 5, 2 ** 64 - 1, 10 ** 17 + 1, 10 ** 22 + 7, -(10 ** 25) - 3]
+
+
+class _Typed:
+    """Numbers for the elements that add with Python's `+` (Sum, Mean, VarianceMeanCount): between two resets either
+    a *dyadic* stretch - ints and floats that are small multiples of 2**-sh, every partial sum exact in binary64 -
+    or, as long as the running total is an int (after construction with an int start, after every reset), an *int*
+    stretch of integers beyond 2**53, which only int arithmetic adds exactly.  A reset() that keeps anything of the
+    earlier stretch (the float type of the total, a compensation term) shows in the stretch after it."""
+
+    def __init__(self, rng, sh, bits, start_is_float, p_int=0.35):
+        self.rng, self.sh, self.bits, self.p_int = rng, sh, bits, p_int
+        self.mode = None
+        self.float_total = start_is_float
+        self.force_int = False
+
+    def reset(self):
+        self.mode, self.float_total, self.force_int = None, False, False
+
+    def __call__(self):
+        rng = self.rng
+        if self.mode is None:
+            self.mode = "int" if (self.force_int or (not self.float_total and rng.random() < self.p_int)) else "dyadic"
+        if self.mode == "int":
+            r = rng.random()
+            if r < 0.5:
+                return rng.choice(_BIG_INTS)
+            if r < 0.8:
+                return rng.randint(-10 ** 30, 10 ** 30)
+            return rng.randint(-100, 100)
+        x = _rand_num(rng, self.sh, rng.choice(self.bits))
+        if isinstance(x, dict):
+            self.float_total = True
+        return x
+
+
 
 
 def _all_histories(alphabet, maxlen):
@@ -1725,7 +1964,7 @@ def _all_histories(alphabet, maxlen):
 
 def _specs_small():
     """(spec, sh, two fill values) for the exhaustive part"""
-    v = lambda d, c=None: {"d": d, "c": c}
+    v = lambda d, c=None, **kw: dict({"d": d, "c": c}, **kw)
     out = []
     out.append(({"k": "count", "name": "count", "count0": 0}, 0, [v(5, {"a": 1}), v(7)]))
     out.append(({"k": "count", "name": "n", "count0": 3}, 0, [v(5, {"n": 1}), v(7, {})]))
@@ -1749,6 +1988,19 @@ def _specs_small():
             out.append(({"k": "vmc", "corrected": corr, "poe": poe}, 0, [v(3, {"a": 1}), v(7)]))
     out.append(({"k": "vmc", "corrected": True, "poe": False, "explicit": True}, 0, [v(3, {"a": 1}), v(7)]))
     out.append(({"k": "vmc", "corrected": False, "poe": True, "sums": "fc"}, 0, [v(3, {"a": 1}), v(7)]))
+    # explicit sums of which one, the other, both or none can be reset (the element has a reset method iff both can)
+    out.append(({"k": "vmc", "corrected": False, "poe": False, "sums": ["sum", "fc"]}, 0, [v(3, {"a": 1}), v(7)]))
+    out.append(({"k": "vmc", "corrected": True, "poe": True, "sums": ["fc", "fc"]}, 0, [v(3, {"a": 1}), v(7)]))
+    out.append(({"k": "vmc", "corrected": False, "poe": True, "sums": ["none", "fc"]}, 0, [v(3, {"a": 1}), v(7)]))
+    out.append(({"k": "vmc", "corrected": False, "poe": False, "sums": ["sum", "none"]}, 0, [v(3, {"a": 1}), v(7)]))
+    out.append(({"k": "vmc", "corrected": False, "poe": True, "sums": [{"t0": 5}, {"t0": -2}]}, 0, [v(3, {"a": 1}), v(7)]))
+    out.append(({"k": "vmc", "corrected": True, "poe": False, "sums": ["sum", {"t0": 4}]}, 0, [v(3, {"a": 1}), v(7)]))
+    # numbers of both Python types around a reset: a float, then integers that only int arithmetic adds exactly
+    out.append(({"k": "sum", "total0": 0}, 1, [v(_mknum(0.5), {"a": 1}), v(2 ** 60 + 1)]))
+    out.append(({"k": "sum", "total0": _mknum(0.5)}, 1, [v(2 ** 53 + 1, {"a": 1}), v(-(2 ** 53) - 3)]))
+    out.append(({"k": "mean", "seq": None, "poe": True}, 1, [v(_mknum(0.5), {"a": 1}), v(2 ** 60 + 1)]))
+    out.append(({"k": "mean", "seq": "sum", "poe": False}, 1, [v(_mknum(1.5)), v(2 ** 62 + 5, {"a": 1})]))
+    out.append(({"k": "vmc", "corrected": False, "poe": True}, 1, [v(_mknum(0.5), {"a": 1}), v(2 ** 53 + 1)]))
     # elements filled and reset through adapters
     out.append(({"k": "sum", "total0": 2, "via": "fr"}, 0, [v(5, {"a": 1}), v(-7)]))
     out.append(({"k": "count", "name": "count", "count0": 0, "via": "frseq"}, 0, [v(5, {"a": 1}), v(7)]))
@@ -1770,11 +2022,22 @@ def _specs_small():
     out.append(({"k": "groupby", "args": []}, 0, [v(3, {"g": 1}), v(4)]))
     out.append(({"k": "groupby", "args": ["g"]}, 0, [v(3, {"g": 1, "m": 1}), v(4, {"g": 2, "m": 1})]))
     out.append(({"k": "groupby", "args": ["", "m"]}, 0, [v(3, {"g": 1, "m": 1}), v(4, {"g": 1, "m": 2})]))
+    # one context written in two insertion orders is one key (top level and nested)
+    out.append(({"k": "groupby", "args": [["g", "m"]]}, 0, [v(3, {"g": 1, "m": 2}), v(4, {"g": 1, "m": 2}, co=1)]))
+    out.append(({"k": "groupby", "args": ["", "a"]}, 0, [v(3, {"g": 1, "m": 2, "a": 5}, co=2), v(4, {"g": 1, "m": 2})]))
+    out.append(({"k": "groupby", "args": ["variable"]}, 0, [v(3, {"variable": {"name": "x", "unit": "m"}}),
+                                                            v(4, {"variable": {"name": "x", "unit": "m"}, "a": 1}, co=1)]))
     out.append(({"k": "hist", "edges": [0, 1, 2]}, 0, [v(1, {"a": 1}), v(5)]))
     out.append(({"k": "hist", "edges": [0, 1, 2], "bins": [3, 4]}, 0, [v(0), v(-1, {"a": 1})]))
     out.append(({"k": "hist", "edges": [0, 1, 2], "make_bins": [1, 1]}, 0, [v(1), v(2, {"a": 1})]))
     out.append(({"k": "hist", "edges": [_mknum(0.5), 1, _mknum(2.5)], "iv": 2}, 1, [v(_mknum(0.5)), v(2, {"a": 1})]))
+    # floats one ulp beside an inner edge: edges[i] <= x < edges[i+1] is a statement about ==, < and nothing looser
+    out.append(({"k": "hist", "edges": [0, 1, 2, 3]}, 53, [v(_mknum(1.0 - 2.0 ** -53)), v(_mknum(2.0 + 2.0 ** -51), {"a": 1})]))
+    out.append(({"k": "hist", "edges": [_mknum(-1.0), _mknum(0.5), 2]}, 60, [v(_mknum(0.5 - 2.0 ** -54), {"a": 1}),
+                                                                           v(_mknum(2.0 - 2.0 ** -40))]))
     out.append(({"k": "hist", "md": True, "edges": [[0, 1, 2], [0, 1]]}, 0, [v([1, 0], {"a": 1}), v([0, 5])]))
+    out.append(({"k": "hist", "md": True, "edges": [[0, 1, 2], [0, 1, 3]]}, 53,
+                [v([_mknum(1.0 - 2.0 ** -53), _mknum(1.0 + 2.0 ** -52)], {"a": 1}), v([_mknum(2.0 - 2.0 ** -52), 0])]))
     out.append(({"k": "hist", "md": True, "edges": [[0, 1, 2], [0, 1, 3]], "bins": [[1, 2], [3, 4]]}, 0,
                 [v([1, 2], {"a": 1}), v([0, 0])]))
     for sc in (None, 5):
@@ -1857,7 +2120,49 @@ def _init_cases():
     return cs
 
 
+def _need_sh(nums):
+    """the smallest k such that every number is a multiple of 2**-k"""
+    return max([0] + [Fraction(_num(x)).denominator.bit_length() - 1 for x in nums])
+
+
+def _beside(rng, e):
+    """a float within a few ulps or a relative 1e-9 .. 1e-13 of the edge e (not the edge itself), exactly representable"""
+    import math
+    e = float(e)
+    r = rng.random()
+    if e == 0.0:
+        return rng.choice([-1, 1]) * 2.0 ** -rng.choice([40, 60, 80])
+    if r < 0.4:
+        x = math.nextafter(e, rng.choice([-math.inf, math.inf]))
+        if rng.random() < 0.3:
+            x = math.nextafter(x, x + (x - e))          # two ulps away
+        return x
+    if r < 0.7:
+        return e + rng.choice([-1, 1]) * abs(e) * 2.0 ** -rng.choice([31, 34, 40, 45])
+    return e + rng.choice([-1, 1]) * 2.0 ** -rng.choice([36, 40, 44])
+
+
 def _rand_case(rng, maxlen):
+    """a random case; contexts of two and more keys are written in varying insertion orders ("co")"""
+    case = _rand_case0(rng, maxlen)
+
+    def deep(c):
+        return isinstance(c, dict) and (len(c) > 1 or any(deep(x) for x in c.values()))
+    for op in case["ops"]:
+        if op[0] == "f" and deep(op[1].get("c")) and rng.random() < 0.5:
+            op[1]["co"] = rng.randint(1, 5)
+    if case["el"]["k"] == "hist":
+        spec = case["el"]
+        nums = [x for ax in (spec["edges"] if spec.get("md") else [spec["edges"]]) for x in ax]
+        for op in case["ops"]:
+            if op[0] == "f":
+                nums.extend(op[1]["d"] if isinstance(op[1]["d"], list) else [op[1]["d"]])
+        case["sh"] = max(case["sh"], _need_sh(nums))
+    return case
+
+
+def _rand_case0(rng, maxlen):
+    on_reset = None
     kind = rng.choice(["count", "sum", "sum", "dsum", "dsum", "mean", "mean", "vmc", "vmc", "store", "groupby",
                        "hist", "hist", "graph", "vec", "vec"])
     sh = rng.choice([0, 0, 1, 3, 10, 20])
@@ -1866,14 +2171,20 @@ def _rand_case(rng, maxlen):
         spec = {"k": "count", "name": rng.choice(["count", "n", "a"]), "count0": rng.choice([0, 0, 3, -2])}
         mk = lambda: {"d": _rand_num(rng, sh, 30), "c": ctx()}
     elif kind == "sum":
-        big = rng.random() < 0.2
-        if big:
+        r = rng.random()
+        if r < 0.12:          # floats of any magnitude: additions round, the oracle allows the forward error bound
             sh = 0
-            spec = {"k": "sum", "total0": rng.choice([0, 10 ** 25])}
-            mk = lambda: {"d": rng.randint(-10 ** 30, 10 ** 30), "c": ctx()}
+            spec = {"k": "sum", "total0": rng.choice([0, 0, _mknum(0.1), 3])}
+            mk = lambda: {"d": _mknum(rng.choice([0.1, 0.2, 0.3, 1e16, -1e16, 1.0, 2.0 ** 53, 1e-3, rng.random(), 7,
+                                                  rng.uniform(-1e6, 1e6), 2 ** 60 + 1])), "c": ctx()}
         else:
-            spec = {"k": "sum", "total0": rng.choice([0, 0, _rand_num(rng, sh, 44 - sh)])}
-            mk = lambda: {"d": _rand_num(rng, sh, rng.choice([4, 20, 44 - sh])), "c": ctx()}
+            big0 = r < 0.3
+            spec = {"k": "sum", "total0": rng.choice([0, 10 ** 25, 2 ** 53 + 1]) if big0 else
+                    rng.choice([0, 0, _rand_num(rng, sh, 44 - sh)])}
+            typed = _Typed(rng, sh, [4, 20, 44 - sh], isinstance(spec["total0"], dict))
+            typed.force_int = big0 and spec["total0"] != 0
+            mk = lambda: {"d": typed(), "c": ctx()}
+            on_reset = typed.reset
     elif kind == "dsum":
         sh = 0
         spec = {"k": "dsum", "total0": rng.choice([0, 0, 0, 7, _mknum(0.5), _mknum(0.1), _mknum(5e-324), _mknum(1e23),
@@ -1908,20 +2219,31 @@ def _rand_case(rng, maxlen):
                 x = -x if rng.random() < 0.5 else x
                 return {"d": _mknum(x if rng.random() < 0.8 else rng.randint(-10 ** 20, 10 ** 20)), "c": ctx()}
         else:
-            mk = lambda: {"d": _rand_num(rng, sh, rng.choice([4, 20, 40 - sh])), "c": ctx()}
+            typed = _Typed(rng, sh, [4, 20, 40 - sh], False, p_int=0.2)
+            mk = lambda: {"d": typed(), "c": ctx()}
+            on_reset = typed.reset
     elif kind == "vmc":
         sh = min(sh, 10)
         spec = {"k": "vmc", "corrected": rng.random() < 0.6, "poe": rng.random() < 0.4}
-        if rng.random() < 0.3:
+        r = rng.random()
+        if r < 0.25:
             spec["explicit"] = True
-        elif rng.random() < 0.1:
-            spec["sums"] = "fc"
-        mk = lambda: {"d": _rand_num(rng, sh, rng.choice([3, 10, 22])), "c": ctx()}
+        elif r < 0.5:     # explicit sums, with and without a reset method, in both positions
+            spec["sums"] = rng.choice([["sum", "fc"], ["fc", "sum"], ["fc", "fc"], ["sum", "none"], ["none", "sum"],
+                                       ["none", "fc"], ["fc", "none"], ["sum", "sum"]])
+            if rng.random() < 0.4:     # sums with a start (the start of sum_sq not negative: it is a sum of squares)
+                sh = 0
+                spec["sums"] = [rng.choice(["sum", {"t0": rng.choice([1, 5, 10 ** 4])}, "fc"]),
+                                rng.choice(["none", {"t0": rng.choice([-3, 2, 7, 10 ** 3])}])]
+        typed = _Typed(rng, sh, [3, 10, 22], False, p_int=0.15)
+        mk = lambda: {"d": typed(), "c": ctx()}
+        on_reset = typed.reset
     elif kind == "store":
         spec = {"k": "store", "group": rng.random() < 0.5}
         mk = lambda: {"d": _rand_num(rng, sh, 10), "c": ctx()}
     elif kind == "groupby":
-        spec = {"k": "groupby", "args": rng.choice([[], ["g"], ["", "m"], [["g", "m"]], ["", ["m", "a"]]])}
+        spec = {"k": "groupby", "args": rng.choice([[], ["g"], ["", "m"], [["g", "m"]], [["m", "g"]], ["", ["m", "a"]],
+                                                    ["variable"], [["variable", "g"]], ["", "a"]])}
         if rng.random() < 0.15:
             spec["alias"] = True
         def mk():
@@ -1948,6 +2270,9 @@ def _rand_case(rng, maxlen):
 
             def mk():
                 d = [rng.randint(-2, 5) for _ in range(nd)]
+                for a in range(nd):
+                    if rng.random() < 0.2:      # a float beside an edge of that axis
+                        d[a] = _mknum(_beside(rng, rng.choice(spec["edges"][a])))
                 r = rng.random()
                 if r < 0.04:
                     d = d[:-1]              # a coordinate of the wrong dimension: LenaValueError
@@ -1976,7 +2301,10 @@ def _rand_case(rng, maxlen):
                 spec["iv"] = rng.randint(-1, 3)
 
             def mk():
-                if rng.random() < 0.6:      # on an edge or one unit (2**-sh) beside it
+                r = rng.random()
+                if r < 0.3:                 # a float a few ulps / a relative 1e-9 .. 1e-13 beside an edge
+                    return {"d": _mknum(_beside(rng, _num(rng.choice(spec["edges"])))), "c": ctx()}
+                if r < 0.7:                 # on an edge or one unit (2**-sh) beside it
                     m = rng.choice(es) + rng.choice([0, 0, -1, 1])
                 else:
                     m = rng.randint(-12, 12)
@@ -2042,7 +2370,7 @@ def _rand_case(rng, maxlen):
             return {"d": [_rand_num(rng, sh, rng.choice([3, 20])) for _ in range(n)], "c": ctx()}
     if spec["k"] in ("count", "sum", "dsum", "mean", "vmc", "store", "hist") and rng.random() < 0.15:
         spec["via"] = rng.choice(["fr", "frseq", "fc"])
-    return {"el": spec, "ops": _rand_history(rng, mk, maxlen), "sh": sh}
+    return {"el": spec, "ops": _rand_history(rng, mk, maxlen, on_reset), "sh": sh}
 
 
 def _countrun_cases(quick):
@@ -2068,7 +2396,7 @@ def gen_cases(ctx):
         depth = (3 if big else 4) if quick else (4 if big else 5)
         for h in _all_histories(alphabet, depth):
             yield {"el": spec, "ops": h, "sh": sh}
-    n = 4000 if quick else 170000
+    n = 12000 if quick else 170000
     for _ in range(n):
         yield _rand_case(rng, 12)
 
@@ -2078,9 +2406,9 @@ LEVEL_TEXT = ("Lean 4 theorems about transcribed state machines (init, fill, com
               "DSum, Mean, VarianceMeanCount, Vectorize, StoreFilled, GroupBy, Histogram (any dimension, on C06's model) and Graph, "
               "for all fill sequences and all histories (no bound): the documented aggregate after any history of fills and "
               "computes, and observational equality with a new element after reset.  The models are tied to /repo by a "
-              "correspondence check over every history of up to 3-5 calls on 77 small configurations plus seeded random "
+              "correspondence check over every history of up to 3-5 calls on 94 small configurations plus seeded random "
               "histories of up to 12 calls, and a direct oracle (exact Fraction arithmetic, fresh-element replay after every "
-              "reset, copies stay unchanged) on the real code.")
+              "reset, yielded contexts and groups changed in place after every compute) on the real code.")
 LEVEL_NOTE = ("Trusted: Lean kernel (+ propext, Classical.choice, Quot.sound), the hand transcription validated by the "
               "correspondence run on observable behaviour, decimal.Context.add as transcribed (the crux of DSum's exactness is "
               "this assumption, validated against the decimal module), exact instead of floating-point arithmetic, the JSON "
@@ -2089,6 +2417,8 @@ LEVEL_NOTE = ("Trusted: Lean kernel (+ propext, Classical.choice, Quot.sound), t
               "forgotten attributes or aliasing with constructor arguments cannot be expressed in the value model, so the "
               "assurance for sentence 2 of these elements is the harness's replay on a new element after every reset; the "
               "reset theorems with content are those of DSum (precision kept), Mean (unused component), Vectorize (all "
-              "components, by invariant / simulation / per-component home state) and Mean around any sum sequence.")
+              "components, by invariant / simulation / per-component home state), Mean around any sum sequence, "
+              "VarianceMeanCount around any two sum elements (both must be reset; counterexample for one) and Sum over "
+              "numbers with their Python type (the type of the total is forgotten; counterexample for a type-keeping reset).")
 TECHNIQUE = "Lean 4 proof over hand-written model + correspondence check over enumerated and sampled histories"
 DESIGN_REF = "DESIGN.md section 3, C09"
